@@ -193,9 +193,17 @@ def region(ctx, roots):
     return out
 
 
-def hidden_state_rule(ctx, rule_id, roots, what):
+# properties that hold for *any* order in which candidates are offered: state hidden in the sort functions cannot break them
+ORDER_INDEPENDENT = {"C01", "C02", "C03", "C04", "C05", "C06", "C07", "C08", "C10", "C13", "C14"}
+
+
+def hidden_state_rule(ctx, rule_id, roots, what, prop=None):
     ctx.begin(rule_id, f"no state outside the reset model is read or kept by {what}", floor=1)
     reg = region(ctx, roots)
+    if prop in ORDER_INDEPENDENT:
+        sorters = [ctx.repo.functions[n] for n in ctx.repo.functions if n.startswith("sort_")]
+        skip = {id(g.node) for g in ctx.eff.reachable(sorters, precise=True)}
+        reg = [g for g in reg if id(g.node) not in skip]
     ids = {id(g.node) for g in reg}
     ctx.instance("region", cells=len(reg), sample={"functions": len(reg)})
     written, reset = unreset_attrs(ctx)
